@@ -67,6 +67,15 @@ CHECKS = {
             "Only 'only-if' clauses are demanded (a carried id must be within thresholds), never an obligation to continue; cases within "
             "1e-9 of a threshold are excluded by construction of the alphabet.",
             "3 C19"),
+    "C20": ("exploration", "cdrv", "exhaustive enumeration of grid shapes x spectra x level counts under ASan/UBSan plus a degenerate-input menu over all public operations",
+            "Native: a driver linked with the repo's specpart.c and built with clang ASan+UBSan runs every grid shape 1x1..8x8 (complete "
+            "structured families, full products on small shapes, tiny/huge value ranges) x ihmax {1..1000} round-robin over shapes so "
+            "the static buffers are reallocated at every call, with a per-call watchdog; any sanitizer report, timeout, crash or input "
+            "modification is a violation. Python: ~70 public operations x degenerate spectra x grids nf{1..9} x nd{1..4} x layouts must "
+            "not raise; 24 invalid-argument classes must raise ValueError.",
+            "The python wrapper runs without sanitizers (crashes/hangs are still caught by the worker watchdog). hp01, plotting, fits and "
+            "file IO are outside this check. ASan leak checking is off (known one-buffer leak per shape change).",
+            "3 C20"),
 }
 
 PENDING = {
